@@ -237,8 +237,8 @@ func ruleC02Attach(p *Program, r *Run) {
 			for _, el := range cl.Elts {
 				if kv, ok := el.(*ast.KeyValueExpr); ok {
 					if id, ok := kv.Key.(*ast.Ident); ok {
-						if fv, _ := info.Uses[id].(*types.Var); fv == sortF || fv == takeF {
-							bad = id.Name
+						if fv, _ := info.Uses[id].(*types.Var); (fv == sortF || fv == takeF) && !isNilIdent(info, kv.Value) {
+							bad = id.Name // an explicit nil is what leaving the field out means
 						}
 					}
 				} else {
